@@ -311,7 +311,7 @@ func runJob(prog *ssa.Program, pkgs map[string]*ssa.Package, job Job, verbose bo
 			res.BlocksTotal++
 			if ex.Covered[b] {
 				res.BlocksCovered++
-			} else if len(res.Unreached) < 200 {
+			} else if len(res.Unreached) < 2000 {
 				bp := token.NoPos
 				for _, in := range b.Instrs {
 					if in.Pos() != token.NoPos {
@@ -319,7 +319,7 @@ func runJob(prog *ssa.Program, pkgs map[string]*ssa.Package, job Job, verbose bo
 						break
 					}
 				}
-				res.Unreached = append(res.Unreached, fmt.Sprintf("%s#%d(%s:%d)", fn.Name(), b.Index, shortFile(prog.Fset.Position(bp).Filename), prog.Fset.Position(bp).Line))
+				res.Unreached = append(res.Unreached, fmt.Sprintf("%s#%d(%s:%d)", fn.String(), b.Index, shortFile(prog.Fset.Position(bp).Filename), prog.Fset.Position(bp).Line))
 			}
 		}
 	}
